@@ -211,6 +211,12 @@ func (c *connection) onProcess(onConnect OnConnect, onRequest OnRequest) (proces
 				}
 			}
 			c.unlock(connecting)
+			// double check: if the peer closed after the IsActive test above but before the
+			// connecting lock was released, the poller gave up calling onDisconnect and
+			// relies on this task. onDisconnect is protected by the state CAS so it runs once.
+			if !c.IsActive() {
+				c.onDisconnect()
+			}
 		}
 	START:
 		// The `onRequest` must be executed at least once if conn have any readable data,
